@@ -140,6 +140,8 @@ func ProtoIPSetMemberToBPFEntry(id uint64, member string) IPSetEntryInterface {
 			protocol = 6
 		case "udp":
 			protocol = 17
+		case "sctp":
+			protocol = 132
 		default:
 			logrus.WithField("member", member).Warn("Unknown protocol in named port member")
 			return nil
